@@ -30,7 +30,7 @@ CONSTANTS
   Bug_MoveRecordLosesDelete = FALSE
   Bug_OpenKeepsOldLogNumber = FALSE
 INVARIANTS RReadCorrect RWellFormed RSeqSane ManifestMatches NumbersFresh
-PROPERTIES NoDeadLogAfterPass
+PROPERTIES NoDeadLogAfterPass RImplementsKV
 CONSTRAINT RBound
 VIEW RView
 CHECK_DEADLOCK FALSE
